@@ -32,6 +32,41 @@ class Ctx:
         return self._cfgs[fi.qual]
 
 
+def sensitivity(ctx):
+    """Thorough tier: apply the property's seeded-defect corpus (selftest/corpus + /verif/seeded) to scratch
+    copies of the current tree and record how many the rules catch.  Measures rule sensitivity only: the result
+    goes into the evidence and never changes the exit status (an edited tree may make a seed inapplicable)."""
+    import json
+    import subprocess
+    import tempfile
+    if os.environ.get('VERIF_NO_SENSITIVITY'):
+        return
+    verif = os.path.dirname(os.path.dirname(os.path.abspath(__file__)))
+    fd, out = tempfile.mkstemp(prefix='wpull-sens-', suffix='.json')
+    os.close(fd)
+    try:
+        env = dict(os.environ)
+        env['VERIF_NO_SENSITIVITY'] = '1'
+        r = subprocess.run(['/venv/bin/python', os.path.join(verif, 'selftest', 'run.py'), '--prop', ctx.prop, '-j', '16',
+                            '--json', out], cwd=verif, env=env, capture_output=True, text=True, timeout=1500)
+        with open(out) as fh:
+            data = json.load(fh)
+        summ = data.get('summary', {})
+        ctx.check.info['seeded_defect_corpus'] = {
+            'entries': len(data.get('results', [])), 'summary': summ,
+            'not_as_expected': [x['id'] for x in data.get('results', []) if x['status'] not in ('detected', 'silent', 'skipped')][:20],
+            'note': 'break entries must be reported (naming the rule), benign entries must stay silent; informational',
+        }
+        print('thorough: seeded-defect corpus for %s: %s' % (ctx.prop, ', '.join('%s=%s' % kv for kv in sorted(summ.items()))))
+    except Exception as e:      # never affects the verdict
+        ctx.check.info['seeded_defect_corpus'] = {'error': str(e)[:200]}
+    finally:
+        try:
+            os.remove(out)
+        except OSError:
+            pass
+
+
 def main(argv=None):
     ap = argparse.ArgumentParser()
     ap.add_argument('prop')
@@ -65,8 +100,10 @@ def main(argv=None):
         if ctx.check.obligations == 0:
             return analysis_error(prop, 'no rule instance was evaluated (vacuous run)')
         ctx.check.info['calls_resolution'] = dict(ctx.res.stats)
-        if args.tier == 'thorough' and hasattr(mod, 'thorough'):
-            mod.thorough(ctx)
+        if args.tier == 'thorough':
+            if hasattr(mod, 'thorough'):
+                mod.thorough(ctx)
+            sensitivity(ctx)
         return ctx.check.finish(ctx.repo)
     except AnalysisError as e:
         return analysis_error(prop, str(e))
